@@ -334,6 +334,7 @@ func (c *Ctx) replayOpt(p *Prog, m gosx.Model) (bool, map[string]interface{}) {
 		var gr nativeProgResp
 		req := map[string]interface{}{"Op": "prog", "Prog": map[string]interface{}{"Src": p.Src, "Entry": entry, "NRes": len(p.Results), "Args": args, "Mode": mode}}
 		out, err := c.Native.RunOnce(req, &gr, 60)
+		gr.fix()
 		switch {
 		case err != nil:
 			return "HOST-CRASH: " + lastLines(out, 3)
